@@ -89,11 +89,14 @@ class IVFCLevel4Reader(RawIOBase):
 
     @_raise_if_level_closed
     def read(self, size: int = -1) -> bytes:
-        if size == -1:
-            size = self._lv4.size
-
         if self._seek >= self._lv4.size:
             # avoid sending useless requests past the file
+            return b''
+
+        remaining = self._lv4.size - self._seek
+        if size < 0 or size > remaining:
+            size = remaining
+        if size == 0:
             return b''
 
         with self._lock:
